@@ -194,7 +194,8 @@ def check(ctx):
         vp = S.fn(owner, "visit_primitive")
         if vp is not None:
             paths = ev.fn_paths(vp)
-            if len(paths) == 1 and paths[0][1] == ("var", "type_name"):
+            pnames = [p_["pat"].get("name") for p_ in vp.sig.get("params", []) if p_.get("pat")]
+            if len(paths) == 1 and paths[0][1][0] == "var" and paths[0][1][1] in pnames:
                 r1.ok("%s::visit_primitive is the identity" % owner)
             else:
                 r1.bad(V(r1.id, owner + "::visit_primitive", "not-identity:%s" % "|".join(render(p[1]) for p in paths), "visit_primitive rewrites primitive names: %s" % [render(p[1]) for p in paths]))
